@@ -155,6 +155,9 @@ class Patch(dict[str, Any]):
             case None:
                 dicts.remove(cast(dict[Any, Any], body), path)
             case collections.abc.Mapping():
+                # As in the merge-patch (RFC 7386), a mapping replaces any non-mapping value first.
+                if path and not isinstance(dicts.resolve(body, path, None), collections.abc.Mapping):
+                    dicts.ensure(cast(dict[Any, Any], body), path, {})
                 for key, val in value.items():
                     self._apply_patch(body, path + (key,), val)
             case _:
